@@ -44,6 +44,8 @@ operator == (const TaskBase& lhs,
 
 //------------------------------------------------------------------------------
 
+#pragma pack(pop)
+
 template <typename TPayload>
 struct TaskT final
 	: TaskBase
@@ -96,6 +98,8 @@ struct TaskT final
 };
 
 //------------------------------------------------------------------------------
+
+#pragma pack(push, 1)
 
 template <>
 struct TaskT<void> final
